@@ -47,6 +47,10 @@ type tripleCase struct {
 func parseAll(sys semver.System, vs []string) ([]*semver.Version, bool) {
 	out := make([]*semver.Version, len(vs))
 	for i, s := range vs {
+		// The Maven domain is the DESIGN §6.4 shape; neighbour mutation can leave it.
+		if sys == semver.Maven && !gen.InMavenDomain(s) {
+			return nil, false
+		}
 		v, err := sys.Parse(s)
 		if err != nil || v.IsWildcard() {
 			return nil, false
